@@ -53,8 +53,8 @@ Theorem C16_add_raster_path_sum_at_centres_partial : forall s mg ms grads g,
   let cd := minl (map g_delay grads) in
   exists e, g = GExt e /\ eg_delay e = cd /\
     (forall k, nth k (eg_wf e) 0 == sumQ (map (fun gi => nth k (raster_samples s cd gi) 0) grads)) /\
-    eg_first e = sumQ (map g_first (filter (fun g => Qeq_bool (g_delay g) cd) grads)) /\
-    eg_last e = sumQ (map g_last (filter (fun g => Qeq_bool (g_dur g) (maxl (map g_dur grads))) grads)).
+    eg_first e = sumQ (map g_first (filter (fun g => same_time (g_delay g) cd) grads)) /\
+    eg_last e = sumQ (map g_last (filter (fun g => same_time (g_dur g) (maxl (map g_dur grads))) grads)).
 Proof. exact add_raster_path_sum_at_centres_partial. Qed.
 Print Assumptions C16_add_raster_path_sum_at_centres_partial.
 
